@@ -7,9 +7,12 @@ package main
 // points, handlers sleep, GOMAXPROCS varies.  Everything is derived from the input fields.
 //
 // input  = [procs; track; recmode; endmode; close_at; c_fg; c_bg; d_fg; d_bg; seed; panic%; park%;
-//           V; (n_fg n_bg) x V; L; code x L]
-//          code = verb index (0 = the 001 line) | 900 JOIN of #c | 901 "PING" without argument |
-//          902 "433 a"   (+1000: the line is padded beyond bufio's 4096-byte buffer)
+//           V; (n_fg n_bg) x V; L; code x L; arg x L]
+//          code = verb index (0 = the 001 line) | 900 our JOIN of #c | short lines that make a built-in
+//          handler panic: 901 "PING", 902 "433 a", 903 "433", 904 "CAP", 905 "JOIN" (tracking on)
+//          (+1000: the line is padded beyond bufio's 4096-byte buffer); arg = the serial in the
+//          name u<arg> of the member the line acts on (tracking sessions; 0 = none)
+//          every line carries its serial in the IRCv3 tag s: "@s=<k> :<prefix> VERB ..."
 // obs    = one 7-byte field per event: tag kind k_hi k_lo i a_hi a_lo
 //          tag 0 enter 1 exit 2 panic 3 recovered; kind 0 int 1 fg 2 bg 3 connfg 4 connbg 5 discfg 6 discbg
 //          and a last field "end:<status>"
@@ -28,6 +31,7 @@ import (
 
 	"github.com/fluffle/goirc/client"
 	"github.com/fluffle/goirc/logging"
+	"github.com/fluffle/goirc/state"
 )
 
 const (
@@ -42,11 +46,12 @@ const (
 
 type dspCase struct {
 	procs, track, recmode, endmode, closeAt int
-	cfg, cbg, dfg, dbg                       int
-	seed                                     uint64
-	panicPct, parkPct                        int
-	vfg, vbg                                 []int
-	codes                                    []int
+	cfg, cbg, dfg, dbg                      int
+	seed                                    uint64
+	panicPct, parkPct                       int
+	vfg, vbg                                []int
+	codes                                   []int
+	args                                    []int // per line: target member (tracking sessions)
 }
 
 func dspDecode(in Fields) *dspCase {
@@ -66,6 +71,10 @@ func dspDecode(in Fields) *dspCase {
 		c.codes = append(c.codes, in.I(p))
 		p++
 	}
+	for j := 0; j < l; j++ {
+		c.args = append(c.args, in.I(p)) // 0 when absent
+		p++
+	}
 	return c
 }
 
@@ -79,22 +88,38 @@ func (c *dspCase) encode() Fields {
 	for _, x := range c.codes {
 		f = append(f, F(x)...)
 	}
+	for k := range c.codes {
+		a := 0
+		if k < len(c.args) {
+			a = c.args[k]
+		}
+		f = append(f, F(a)...)
+	}
 	return f
 }
 
 // The verb pool.  Index 0 is the 001 line.  Without tracking the pool starts with verbs the
 // client itself reacts to through built-in INTERNAL handlers (PING -> PONG, CTCP VERSION -> a
 // NOTICE reply, NICK of somebody else), so that user handlers sit next to built-in ones, then
-// verbs nobody but the user handlers cares about.  With tracking on every verb is a
-// state-changing one (each has a built-in state handler) so that the tracker sample is defined.
+// verbs nobody but the user handlers cares about.  With tracking on the pool is EVERY verb of
+// stHandlers; each line leaves evidence of its serial in the tracker (see sample()).
+var dspTrackVerbs = []string{"TOPIC", "332", "MODE", "324", "JOIN", "PART", "KICK", "QUIT", "NICK", "353", "352", "311", "671"}
+
 func dspVerbName(track, v int) string {
 	if v == 0 {
 		return "001"
 	}
 	if track == 1 {
-		return []string{"TOPIC", "332", "MODE"}[(v-1)%3]
+		return dspTrackVerbs[(v-1)%len(dspTrackVerbs)]
 	}
 	return []string{"PING", "PRIVMSG", "CTCP", "NICK", "NOTICE", "372", "V7"}[(v-1)%7]
+}
+
+func (c *dspCase) arg(k int) int {
+	if k < len(c.args) {
+		return c.args[k]
+	}
+	return 0
 }
 
 // the wire text of line k
@@ -106,24 +131,64 @@ func (c *dspCase) lineText(k int) string {
 	if long {
 		pad = " " + strings.Repeat("x", 4200+int(dspHash(c.seed, 77, k, 0)%3000))
 	}
-	src := fmt.Sprintf(":%d!u@h ", k)
+	tag := fmt.Sprintf("@s=%d ", k)
+	src := fmt.Sprintf("%s:%d!u@h ", tag, k)
+	tgt := fmt.Sprintf("u%d", c.arg(k))
 	switch code {
 	case 900:
-		return fmt.Sprintf(":n0!u@h JOIN #c")
+		return tag + ":n0!u@h JOIN #c"
 	case 901:
 		return src + "PING"
 	case 902:
 		return src + "433 a"
+	case 903:
+		return src + "433"
+	case 904:
+		return src + "CAP"
+	case 905:
+		return src + "JOIN"
 	}
-	switch dspVerbName(c.track, code) {
+	vn := dspVerbName(c.track, code)
+	if c.track == 1 {
+		switch vn {
+		case "TOPIC":
+			return fmt.Sprintf("%sTOPIC #c :%d%s", src, k, pad)
+		case "332":
+			return fmt.Sprintf("%s332 me #c :%d%s", src, k, pad)
+		case "MODE":
+			if c.arg(k) > 0 {
+				return fmt.Sprintf("%sMODE #c +o %s", src, tgt)
+			}
+			return fmt.Sprintf("%sMODE #c +k %d", src, k)
+		case "324":
+			return fmt.Sprintf("%s324 me #c +k %d", src, k)
+		case "JOIN":
+			return fmt.Sprintf("%s:u%d!i@h JOIN #c", tag, k)
+		case "PART":
+			return fmt.Sprintf("%s:%s!i@h PART #c :bye%s", tag, tgt, pad)
+		case "KICK":
+			return fmt.Sprintf("%sKICK #c %s :out%s", src, tgt, pad)
+		case "QUIT":
+			return fmt.Sprintf("%s:%s!i@h QUIT :gone%s", tag, tgt, pad)
+		case "NICK":
+			return fmt.Sprintf("%s:%s!i@h NICK u%d", tag, tgt, k)
+		case "353":
+			pre := ""
+			if k%3 == 0 {
+				pre = "+"
+			}
+			return fmt.Sprintf("%s353 me = #c :%su%d", src, pre, k)
+		case "352":
+			return fmt.Sprintf("%s352 me #c i%d h%d srv %s H :0 real", src, k, k, tgt)
+		case "311":
+			return fmt.Sprintf("%s311 me %s i%d h%d * :real", src, tgt, k, k)
+		case "671":
+			return fmt.Sprintf("%s671 me %s :is using a secure connection", src, tgt)
+		}
+	}
+	switch vn {
 	case "001":
 		return fmt.Sprintf("%s001 n%d :Welcome%s", src, k, pad)
-	case "TOPIC":
-		return fmt.Sprintf("%sTOPIC #c :%d%s", src, k, pad)
-	case "332":
-		return fmt.Sprintf("%s332 me #c :%d%s", src, k, pad)
-	case "MODE":
-		return fmt.Sprintf("%sMODE #c +k %d", src, k)
 	case "PING":
 		return fmt.Sprintf("%sPING :%d%s", src, k, pad)
 	case "CTCP":
@@ -131,8 +196,19 @@ func (c *dspCase) lineText(k int) string {
 	case "NICK":
 		return fmt.Sprintf("%sNICK x%d", src, k)
 	default:
-		return fmt.Sprintf("%s%s #c :%d%s", src, dspVerbName(c.track, code), k, pad)
+		return fmt.Sprintf("%s%s #c :%d%s", src, vn, k, pad)
 	}
+}
+
+// serial of a scripted line as a handler sees it (-1: not a scripted line)
+func dspSerial(line *client.Line) int {
+	if line == nil || line.Tags == nil {
+		return -1
+	}
+	if v, ok := line.Tags["s"]; ok {
+		return dspAtoi(v)
+	}
+	return -1
 }
 
 func dspHash(seed uint64, a, b, c int) uint64 {
@@ -160,6 +236,16 @@ type dspRun struct {
 	endSeen chan struct{}
 	endOnce sync.Once
 	discN   int64
+	// evidence tables for the tracker sample (tracking sessions), from the script
+	opLine  map[string]int // name -> serial of the MODE +o line on it
+	sslLine map[string]int // name -> serial of its 671 line
+	rem     []dspRemoval   // PART / KICK / QUIT lines, increasing serial
+}
+
+type dspRemoval struct {
+	k    int
+	name string
+	j    int // the serial in the name
 }
 
 func (r *dspRun) rec(tag, kind, k, i, a int) {
@@ -184,7 +270,14 @@ func dspFirstTok(s string) string {
 	return s
 }
 
-// what a handler sees when it asks the tracker: 1 + serial of the last line applied
+// What a handler sees when it asks the tracker: 1 + the serial of the last line applied.
+// Every line of a tracking session leaves evidence of its serial: 001 -> our nick n<k>; our JOIN ->
+// #c exists; TOPIC/332 -> topic <k>; MODE +k/324 -> key <k>; JOIN/353/NICK -> a member named u<k>;
+// 352/311 -> host h<k> of a member; MODE +o / 671 -> the Op / SSL flag of a member (one such line
+// per member: table from the script); PART/KICK/QUIT of u<j> -> u<j> is gone although evidence
+// younger than j is visible (the generator removes only members older than the latest topic/key,
+// which persists).  Evidence appears only when its line is applied and the evidence of the last
+// applied line is visible until the next line is applied, so 1 + max is the sample.
 func (r *dspRun) sample() int {
 	if r.c.track != 1 {
 		return 0
@@ -193,26 +286,92 @@ func (r *dspRun) sample() int {
 	if st == nil {
 		return 0
 	}
-	a := 0
-	if me := st.Me(); me != nil && strings.HasPrefix(me.Nick, "n") {
-		if k := dspAtoi(me.Nick[1:]); k >= 0 && k+1 > a {
-			a = k + 1
+	// the channel and its members are read in several calls: when the tracker moved on in
+	// between (a member of the channel snapshot is gone or renamed) read again; a later state
+	// only has a larger sample and foreground handlers never see the tracker move
+	for try := 0; ; try++ {
+		if a, ok := r.sampleOnce(st); ok || try > 50 {
+			return a
 		}
 	}
-	if ch := st.GetChannel("#c"); ch != nil {
-		if a < 2 {
-			a = 2
+}
+
+func (r *dspRun) sampleOnce(st state.Tracker) (int, bool) {
+	m := -1
+	up := func(k int) {
+		if k > m {
+			m = k
 		}
-		if k := dspAtoi(dspFirstTok(ch.Topic)); k >= 0 && k+1 > a {
-			a = k + 1
+	}
+	num := func(s, pre string) int {
+		if !strings.HasPrefix(s, pre) || len(s) == len(pre) {
+			return -1
 		}
-		if ch.Modes != nil {
-			if k := dspAtoi(ch.Modes.Key); k >= 0 && ch.Modes.Key != "" && k+1 > a {
-				a = k + 1
+		return dspAtoi(s[len(pre):])
+	}
+	if me := st.Me(); me != nil {
+		up(num(me.Nick, "n"))
+	}
+	ch := st.GetChannel("#c")
+	if ch == nil {
+		return m + 1, true
+	}
+	up(1)
+	up(dspAtoi(dspFirstTok(ch.Topic)))
+	if ch.Modes != nil && ch.Modes.Key != "" {
+		up(dspAtoi(ch.Modes.Key))
+	}
+	for name, pr := range ch.Nicks {
+		if !strings.HasPrefix(name, "u") {
+			continue
+		}
+		up(num(name, "u"))
+		if pr != nil && pr.Op {
+			if k, ok := r.opLine[name]; ok {
+				up(k)
+			}
+		}
+		nk := st.GetNick(name)
+		if nk == nil {
+			return 0, false
+		}
+		up(num(nk.Host, "h"))
+		if nk.Modes != nil && nk.Modes.SSL {
+			if k, ok := r.sslLine[name]; ok {
+				up(k)
 			}
 		}
 	}
-	return a
+	for _, x := range r.rem {
+		if _, on := ch.Nicks[x.name]; !on && m > x.j {
+			up(x.k)
+		}
+	}
+	return m + 1, true
+}
+
+func (r *dspRun) buildEvidence() {
+	r.opLine, r.sslLine = map[string]int{}, map[string]int{}
+	if r.c.track != 1 {
+		return
+	}
+	for k, code := range r.c.codes {
+		code %= 1000
+		if code >= 900 || code == 0 {
+			continue
+		}
+		name := fmt.Sprintf("u%d", r.c.arg(k))
+		switch dspVerbName(1, code) {
+		case "MODE":
+			if r.c.arg(k) > 0 {
+				r.opLine[name] = k
+			}
+		case "671":
+			r.sslLine[name] = k
+		case "PART", "KICK", "QUIT":
+			r.rem = append(r.rem, dspRemoval{k, name, r.c.arg(k)})
+		}
+	}
 }
 
 func (r *dspRun) sleep(kind, k, i int) {
@@ -234,9 +393,9 @@ func (r *dspRun) handler(kind, i int) client.HandlerFunc {
 		k := 0
 		switch kind {
 		case dspKFg, dspKBg:
-			k = dspAtoi(line.Nick)
+			k = dspSerial(line)
 			if k < 0 {
-				return // not a scripted line (the end marker is handled elsewhere)
+				return // not a scripted line (our own JOIN echo has handlers of its verb but is line 1: no tag-less lines exist; the end marker is handled elsewhere)
 			}
 		case dspKConnFg:
 			k = dspAtoi(strings.TrimPrefix(conn.Me().Nick, "n"))
@@ -301,7 +460,7 @@ func (r *dspRun) recoverHook(conn *client.Conn, line *client.Line) {
 		id, ok := r.pend[line]
 		delete(r.pend, line)
 		if !ok { // a built-in handler: serial from the line
-			id = [3]int{dspKInt, dspAtoi(line.Nick), 0}
+			id = [3]int{dspKInt, dspSerial(line), 0}
 			if id[1] < 0 {
 				id[1] = 65001
 			}
@@ -361,6 +520,7 @@ func dspExec(in Fields) Fields {
 	cfg.Flood = true
 	cfg.PingFreq = 0
 	r := &dspRun{c: c, pend: map[*client.Line][3]int{}, park: make(chan struct{}), endSeen: make(chan struct{})}
+	r.buildEvidence()
 	if c.recmode == 1 {
 		cfg.Recover = r.recoverHook
 	}
@@ -560,7 +720,7 @@ func dspGenCase(r *Rand, o dspGenOpt, small bool) *dspCase {
 	}
 	nv := r.Range(3, 7) // always PING and PRIVMSG, often CTCP / NICK / plain verbs
 	if o.track {
-		nv = r.Range(2, 4)
+		nv = 1 + len(dspTrackVerbs) // every verb of stHandlers
 	}
 	for v := 0; v < nv; v++ {
 		c.vfg = append(c.vfg, r.Intn(4))
@@ -572,26 +732,166 @@ func dspGenCase(r *Rand, o dspGenOpt, small bool) *dspCase {
 	if !o.track && c.vfg[2] == 0 {
 		c.vfg[2] = 1
 	}
-	for k := 0; k < nl; k++ {
-		code := 1 + r.Intn(nv-1)
-		switch {
-		case o.track && k == 0:
-			code = 0
-		case o.track && k == 1:
-			code = 900
-		case !o.track && k == nl/3:
-			code = 0
-		case r.Chance(2):
-			code = 0 // a further welcome line
-		case o.shorts && r.Chance(6):
-			code = 901 + r.Intn(2)
+	if o.track {
+		for v := 1; v < nv; v++ { // a user handler of some kind on every state verb
+			if c.vfg[v]+c.vbg[v] == 0 {
+				if r.Bool() {
+					c.vfg[v] = 1
+				} else {
+					c.vbg[v] = 1
+				}
+			}
 		}
-		if vn := dspVerbName(c.track, code); code < 900 && vn != "MODE" && vn != "CTCP" && vn != "NICK" && r.Chance(3) && !small {
-			code += 1000
+	}
+	short := func() int {
+		// short lines whose built-in handler panics; zero-argument ones included
+		xs := []int{901, 902, 903, 904}
+		if o.track {
+			xs = append(xs, 905)
 		}
-		c.codes = append(c.codes, code)
+		return xs[r.Intn(len(xs))]
+	}
+	if o.track {
+		dspGenTrackLines(r, c, nl, o, small, short)
+	} else {
+		for k := 0; k < nl; k++ {
+			code := 1 + r.Intn(nv-1)
+			switch {
+			case k == nl/3:
+				code = 0
+			case r.Chance(2):
+				code = 0 // a further welcome line
+			case o.shorts && (r.Chance(6) || k == 1):
+				code = short()
+				if k == 1 {
+					code = 901
+				}
+			}
+			if vn := dspVerbName(c.track, code); code < 900 && vn != "CTCP" && vn != "NICK" && r.Chance(3) && !small {
+				code += 1000
+			}
+			c.codes = append(c.codes, code)
+			c.args = append(c.args, 0)
+		}
 	}
 	return c
+}
+
+// a tracking session: 001, our JOIN of #c, a TOPIC, then lines of every state verb acting on a
+// simulated membership of #c so that each line has a visible effect (see sample())
+func dspGenTrackLines(r *Rand, c *dspCase, nl int, o dspGenOpt, small bool, short func() int) {
+	type member struct {
+		cur           int  // the serial in its current name u<cur>
+		decorated     bool // target of MODE +o / 352 / 311 / 671; never renamed
+		op, ssl, gone bool
+	}
+	var ms []*member
+	vidx := map[string]int{}
+	for i, n := range dspTrackVerbs {
+		vidx[n] = i + 1
+	}
+	perm := 0 // serial of the latest topic / key line: evidence that persists
+	// When the connection ends, lines received shortly before may be discarded (the property
+	// allows it), possibly leaving holes.  From 250 lines before the end on (bufio's 4096-byte
+	// buffer + the 32-slot queue) lines act only on members whose name is older than that, so
+	// that the evidence of every line that IS applied does not depend on a discarded one.
+	w := 1 << 30
+	switch c.endmode {
+	case 1:
+		w = nl - 250
+	case 2:
+		w = c.closeAt - 250
+	}
+	pick := func(ok func(*member) bool) *member {
+		var c []*member
+		for _, m := range ms {
+			if !m.gone && m.cur < w-1 && ok(m) {
+				c = append(c, m)
+			}
+		}
+		if len(c) == 0 {
+			return nil
+		}
+		return c[r.Intn(len(c))]
+	}
+	live := func() int {
+		n := 0
+		for _, m := range ms {
+			if !m.gone {
+				n++
+			}
+		}
+		return n
+	}
+	for k := 0; k < nl; k++ {
+		code, arg := 0, 0
+		switch {
+		case k == 0:
+			code = 0
+		case k == 1:
+			code = 900
+		case k == 2:
+			code = vidx["TOPIC"]
+			perm = k
+		case r.Chance(1):
+			code = 0 // a further welcome line renames us
+		case o.shorts && (r.Chance(6) || k == 3):
+			code = short()
+			if k == 3 {
+				code = 905
+			}
+		default:
+			vn := dspTrackVerbs[r.Intn(len(dspTrackVerbs))]
+			if live() > 24 && (vn == "JOIN" || vn == "353") {
+				vn = "QUIT"
+			}
+			var m *member
+			switch vn {
+			case "JOIN", "353":
+				ms = append(ms, &member{cur: k, decorated: r.Bool()})
+			case "NICK":
+				if m = pick(func(m *member) bool { return !m.decorated }); m != nil {
+					arg = m.cur
+					m.cur = k
+				}
+			case "PART", "KICK", "QUIT":
+				if m = pick(func(m *member) bool { return m.cur < perm }); m != nil {
+					arg = m.cur
+					m.gone = true
+				}
+			case "MODE":
+				if m = pick(func(m *member) bool { return m.decorated && !m.op }); m != nil && r.Bool() {
+					arg = m.cur
+					m.op = true
+				} else {
+					m = &member{} // MODE +k needs no target
+					perm = k
+				}
+			case "671":
+				if m = pick(func(m *member) bool { return m.decorated && !m.ssl }); m != nil {
+					arg = m.cur
+					m.ssl = true
+				}
+			case "352", "311":
+				if m = pick(func(m *member) bool { return m.decorated }); m != nil {
+					arg = m.cur
+				}
+			case "TOPIC", "332", "324":
+				perm = k
+			}
+			needs := vn == "NICK" || vn == "PART" || vn == "KICK" || vn == "QUIT" || vn == "671" || vn == "352" || vn == "311"
+			if needs && m == nil {
+				vn = "JOIN" // nobody suitable yet: somebody joins instead
+				ms = append(ms, &member{cur: k, decorated: r.Bool()})
+			}
+			code = vidx[vn]
+			if (vn == "TOPIC" || vn == "332" || vn == "PART" || vn == "KICK" || vn == "QUIT") && r.Chance(3) && !small {
+				code += 1000
+			}
+		}
+		c.codes = append(c.codes, code)
+		c.args = append(c.args, arg)
+	}
 }
 
 func dspClass(in Fields) string {
